@@ -269,6 +269,7 @@ SUITES = {
                        vsys_suite("c03-vsys", "vc03_ok", {"n": 25, "shards": 4}, {"n": 60, "shards": 16})]},
     "C04": {"gen_obligations": ["src:ent-guarded-update"], "suites": [sys_suite("c04-sys", "c04_ok", {"n": 25, "shards": 8}, {"n": 200, "shards": 16}),
                        sys_suite("c04-sys-faults", "c04_ok", {"n": 25, "shards": 6}, {"n": 150, "shards": 16}, extra=["--faults"]),
+                       sys_suite("c04-sys-corefaults", "c04_ok", {"n": 25, "shards": 3}, {"n": 100, "shards": 16}, extra=["--faults", "--core-faults"]),
                        sys_suite("c04-sys-ent", "c04_ok", {"n": 25, "shards": 3}, {"n": 100, "shards": 16}, extra=["--impl", "ent", "--faults"]),
                        vsys_suite("c04-vsys", "vc04_ok", {"n": 25, "shards": 2}, {"n": 60, "shards": 16})]},
     "C05": {"suites": [sys_suite("c05-sys", "c05_ok", {"n": 25, "shards": 8}, {"n": 200, "shards": 16}),
